@@ -163,7 +163,8 @@ def run(tier):
     ck.add_tlc(rm, 'PegMachineMC (model flavour and generated-parser flavour)')
     if rm.violated:
         ck.violation({'kind': 'schedule', 'inputs': {'spec': 'PegMachineMC'}, 'expected': 'Refines (model flavour), FramesBalanced, StepBound, CutContained',
-                      'observed': rm.violated, 'trace': rm.trace[:60]}, key='machine' + str(rm.violated))
+                      'observed': rm.violated, 'trace': [ln for ln in rm.trace if not ln.startswith('"RES')][:200]}, key='machine' + str(rm.violated))
+        return ck.finish()
     seen = set()
     for j, (it, c, im) in enumerate(zip(items, cases, impl), 1):
         g = it['g']
